@@ -62,7 +62,12 @@ use barter_instrument::{
     index::IndexedInstruments,
     instrument::{
         Instrument, InstrumentIndex,
-        kind::{InstrumentKind, perpetual::PerpetualContract},
+        kind::{
+            InstrumentKind,
+            future::FutureContract,
+            option::{OptionContract, OptionExercise, OptionKind},
+            perpetual::PerpetualContract,
+        },
         name::{InstrumentNameExchange, InstrumentNameInternal},
         quote::InstrumentQuoteAsset,
         spec::{
@@ -133,11 +138,18 @@ fn asset_of(v: &Value) -> Option<Asset> {
 
 /// One definition of the spec -> `Instrument<ExchangeId, Asset>`
 fn instrument_of(d: &Value) -> Instrument<ExchangeId, Asset> {
+    let settlement = || asset_of(&d["settle"]).unwrap_or_else(|| usage("contract without settlement asset"));
     let kind = match s(d, "kind") {
         "spot" => InstrumentKind::Spot,
-        "perp" => InstrumentKind::Perpetual(PerpetualContract {
+        "perp" => InstrumentKind::Perpetual(PerpetualContract { contract_size: dec(1), settlement_asset: settlement() }),
+        "future" => InstrumentKind::Future(FutureContract { contract_size: dec(1), settlement_asset: settlement(), expiry: time(1000) }),
+        "option" => InstrumentKind::Option(OptionContract {
             contract_size: dec(1),
-            settlement_asset: asset_of(&d["settle"]).unwrap_or_else(|| usage("perp without settlement asset")),
+            settlement_asset: settlement(),
+            kind: OptionKind::Call,
+            exercise: OptionExercise::European,
+            expiry: time(1000),
+            strike: dec(100),
         }),
         k => usage(&format!("unknown kind {k}")),
     };
@@ -228,7 +240,8 @@ fn project_instrument(
     let (kind, settle) = match &ins.kind {
         InstrumentKind::Spot => ("spot", 0),
         InstrumentKind::Perpetual(c) => ("perp", c.settlement_asset.index() as i64 + 1),
-        _ => ("other", 0),
+        InstrumentKind::Future(c) => ("future", c.settlement_asset.index() as i64 + 1),
+        InstrumentKind::Option(c) => ("option", c.settlement_asset.index() as i64 + 1),
     };
     let unit = match ins.spec.as_ref().map(|s| &s.quantity.unit) {
         Some(OrderQuantityUnits::Asset(a)) => json!(a.index() as i64 + 1),
@@ -926,11 +939,11 @@ fn random_collection(rng: &mut rand::rngs::StdRng) -> Vec<Value> {
         taken.push(nx);
         let base = rng.random_range(1..=5);
         let quote = loop { let q = rng.random_range(1..=5); if q != base { break q; } };
-        let perp = rng.random_bool(0.35);
-        let settle = if perp { rng.random_range(1..=5) } else { 0 };
+        let kind = match rng.random_range(0..20) { 0..=10 => "spot", 11..=13 => "perp", 14..=16 => "future", _ => "option" };
+        let settle = if kind != "spot" { rng.random_range(1..=5) } else { 0 };
         let unit = if rng.random_bool(0.35) { rng.random_range(1..=5) } else { 0 };
         pool.push(json!({"id": id, "ex": e, "ni": names[id as usize - 1], "nx": nx, "base": a_json(e, base), "quote": a_json(e, quote),
-                         "kind": if perp { "perp" } else { "spot" }, "settle": a_json(e, settle), "unit": a_json(e, unit)}));
+                         "kind": kind, "settle": a_json(e, settle), "unit": a_json(e, unit)}));
     }
     if pool.is_empty() { return vec![]; }
     // insertion sequence: any order, with duplicates
